@@ -1439,6 +1439,8 @@ class FuncEmitter:
         self.defs = {}  # local name -> parsed instruction (for pattern matching)
         self.has_alloca = False
         self.tmpc = 0
+        rx2 = em.opts.get('sync_plain_funcs')
+        self.syncplain = bool(rx2 and re.search(rx2, em.fname(f.name)))
         rx = em.opts.get('ladder_mem_funcs')
         self.memlad = bool(rx and re.search(rx, em.fname(f.name)))
         if self.memlad:
@@ -1995,6 +1997,8 @@ class FuncEmitter:
                 if c.peek()[1] == 'syncscope':
                     c.next(); c.expect('('); c.next(); c.expect(')')
                 order = c.next()[1]
+            if order is None:
+                self.plain_sync(p, body)
             assign(self.load_expr(ty, p, order))
             return
         if op == 'store':
@@ -2008,6 +2012,8 @@ class FuncEmitter:
                 if c.peek()[1] == 'syncscope':
                     c.next(); c.expect('('); c.next(); c.expect(')')
                 order = c.next()[1]
+            if order is None:
+                self.plain_sync(p, body)
             body.append('  ' + self.store_stmt(ty, p, v, order))
             return
         if op == 'fence':
@@ -2435,6 +2441,35 @@ class FuncEmitter:
             local = mm.group(1)
             seen += 1
         return local
+
+    def is_stack_ptr(self, cexpr):
+        """True if the C expression names an SSA value derived (bitcast / any GEP) from an alloca of this function"""
+        if not hasattr(self, '_rev'):
+            self._rev = {self.lname(n): n for n in self.types}
+        local = self._rev.get(cexpr)
+        seen = 0
+        while local and seen < 12:
+            d = self.defs.get(local)
+            if not d:
+                return False
+            if d.startswith('alloca '):
+                return True
+            mm = None
+            if d.startswith('bitcast '):
+                mm = re.match(r'bitcast \S.*?(%(?:"[^"]*"|[-\w.$]+)) to ', d)
+            elif d.startswith('getelementptr '):
+                mm = re.match(r'getelementptr (?:inbounds )?[^%@]*?(%(?:"[^"]*"|[-\w.$]+))', d)
+            if not mm:
+                return False
+            local = mm.group(1)
+            seen += 1
+        return False
+
+    def plain_sync(self, p, body):
+        """opts['sync_plain_funcs']: in the named functions every PLAIN access to non-stack memory is a schedule point of the
+        sequentialised (Tier A) schedules, so check-then-act windows that contain no atomic operation are explored too"""
+        if self.syncplain and not self.is_stack_ptr(p):
+            body.append('  vp_sync_point();')
 
     def root_of_expr(self, cexpr):
         if not hasattr(self, '_rev'):
